@@ -19,7 +19,7 @@ EXPLANATION = (
     'other" (abstract interpretation, lattice NONE<CLEAN<DIRTY, receiver-sensitive, dict-dispatch resolved). '
     'C10.b (ownership): the only writers of solver state from outside the class hierarchy are the two frozen '
     'stream-selection wrappers. Not decided: unit norms, power budget, alignment, monotone leakage (numeric).'
-    ' General rules also applied here (see DESIGN 10.5): validate-before-commit (no `raise` reachable after the object was already changed in a public mutator); a position in a filtered list is never used as a per-user index.')
+    ' General rules also applied here (see DESIGN 10.5): validate-before-commit (no `raise` reachable after the object was already changed in a public mutator); a position in a filtered list is never used as a per-user index; a per-user quantity bound in one loop is never read by a later loop (C10.f).')
 
 PROTECTED = {'_F', '_full_F', '_W', '_W_H', '_full_W_H', '_full_W', '_P', '_Ns'}
 FROZEN_FOREIGN = {
@@ -37,6 +37,8 @@ def check(ctx: Ctx) -> None:
     check_family(ctx, 'C10.d', ['IASolverBaseClass'], floor=5)
     from ..idioms import check_filtered_positions
     check_filtered_positions(ctx, 'C10.e', [BASE, ALGS], floor=1)
+    from ..idioms import check_per_iteration_leaks
+    check_per_iteration_leaks(ctx, 'C10.f', [BASE, ALGS], floor=3)
     ctx.rule('C10.a', 'DSF: no derived solver quantity is DIRTY at a normal exit of any public entry point', floor=100)
     for cname in IA.classes:
         analyse_class(ctx, 'C10.a', IA, cname)
